@@ -160,7 +160,7 @@ func genC05CaseFor(t *rapid.T, rule string) (c *ScalarCase, class string) {
 			c.T, c.Val = desc.Scalar(k), genScalar(t, k, "num", false)
 			class = "typed-" + k
 		default:
-			member := digits(t, rapid.IntRange(1, 6).Draw(t, "nd"), "d")
+			member := digits(t, rapid.SampledFrom([]int{1, 2, 3, 4, 5, 6, 6, 19, 20, 21, 25, 40}).Draw(t, "nd"), "d") // (beyond 19 / 20 digits no machine integer holds the number: it is a digit string all the same)
 			if rule == "float" {
 				member += "." + digits(t, rapid.IntRange(1, 4).Draw(t, "nf"), "f")
 			}
